@@ -11,6 +11,12 @@ Payloads (grammar of lean/UPVerif/Drv/C31.lean):
       script    answers of the deliberately INCOMPLETE underlying planner: on the query for subset MASK it
                 returns STATUS instead of searching
 
+  (toversub (weights WEIGHT*) (same-interval T|F) (reach MASK*) (script (MASK STATUS)*))
+      a temporal problem with one TIMED oversubscription goal per weight (TemporalOversubscription); the underlying
+      planner is a TABLE-DRIVEN stub: it decodes the subset from the timed goals it is handed and answers
+      "solved" (with an empty time-triggered plan standing for a plan that achieves exactly that subset) iff the
+      subset is in `reach`, unless the script names it
+
   (ifp PROBLEM (funs (NAME DEFAULT ((ARG*) VALUE)*)*) (script (INDEX STATUS)*) (trace STEP*))
       funs      total tables of the interpreted functions (DEFAULT for arguments without an entry)
       script    the underlying planner answers STATUS (without searching) on its INDEX-th call
@@ -47,41 +53,55 @@ CORR_NAME = "status-chosen-subset-and-call-sequence"
 RULE = ("(a) oversubscription: finite problems (2 Boolean fluents, bq(L) over 2 objects, two int[0,3] counters; 1-4 actions with "
         "0-1 parameters, literal/comparison/disjunctive preconditions, assign/increase/decrease/conditional effects), 0-1 hard goals "
         "and 0-4 DISTINCT oversubscription goals (literals, their negations, conjunctions that imply one another, comparisons) "
-        "with weights from {-2,-1,0,1/2,1,2,5/2,3} incl. ties and all-negative sets, or no metric at all; solved through the real "
+        "with weights from {-2,-1,-1/2,0,1/2,1,2,5/2,3} incl. ties and all-negative sets, or no metric at all; solved through the real "
         "'oversubscription[c31bfs]' with an exact breadth-first planner over the real UPSequentialSimulator; ~35% of the cases "
         "make the planner answer TIMEOUT / UNSOLVABLE_INCOMPLETELY / MEMOUT / INTERNAL_ERROR / UNSUPPORTED_PROBLEM on 1-2 chosen "
-        "subset queries. (b) interpreted functions: the same finite signature plus total table-defined functions f:int->int, "
-        "gb:int->bool, h:int,int->bool, hl:L->bool used in preconditions (also nested, negated, under or) and in effect values, "
-        "solved through the real 'interpreted_functions_planning[c31bfs]' (the breadth-first planner refuses problems that still "
-        "contain interpreted functions); ~20% with a scripted incomplete answer at the 1st-3rd call. "
-        "Non-trivial = (a) at least 2 oversubscription goals and at least 2 queries to the underlying planner, or a scripted "
+        "subset queries (biased to subsets at least as heavy as the best reachable one). "
+        "(a') temporal oversubscription: 1-4 timed goals (one or several intervals) with the same weight styles, solved through "
+        "'oversubscription[c31table]' with a table-driven stub planner that decodes the subset from the timed goals it receives. "
+        "(b) interpreted functions: the same finite signature plus total table-defined functions f:int->int, "
+        "gb:int->bool, h:int,int->bool, hl:L->bool used in preconditions (negated, under and/or, compared, 8% of the cases also "
+        "nested) and in effect values (also of conditional effects on Boolean fluents), solved through the real "
+        "'interpreted_functions_planning[c31bfs]' (the breadth-first planner refuses problems that still contain interpreted "
+        "functions); cases decided in the first iteration are thinned out (kept with probability 1/4); ~20% with a scripted "
+        "incomplete answer at the 1st-3rd call. "
+        "Non-trivial = (a, a') at least 2 oversubscription goals and at least 2 queries to the underlying planner, or a scripted "
         "incomplete answer that was actually asked; (b) at least one refinement (a relaxed plan rejected by the validator) or a "
         "scripted answer reached.")
 ASSUMPTIONS = [
     "timeout=None, heuristic=None (the time bookkeeping of both _solve methods is not modelled; nothing about time-outs of the "
     "meta-engines themselves is claimed)",
-    "sequential problems only: TemporalOversubscription and durative actions are outside the property's quantifier (exact "
-    "breadth-first planner); see the report for the timed-goal membership test read in oversubscription_planner.py:152",
+    "exact planning is done on sequential problems only; for TemporalOversubscription the underlying planner is a table-driven "
+    "stub (no temporal semantics is exercised: only the goal encoding, the query order and the status logic)",
     "oversubscription goals are pairwise distinct non-constant expressions (Oversubscription stores them in a dict; add_goal drops "
     "a constant TRUE goal), hard goals are not constants",
     "'reachable states' = states reachable from the initial state by applicable ground actions (real UPSequentialSimulator) "
     "that satisfy the hard goals; gain of a state = sum of the weights of the oversubscription goals true in it. The gain is "
     "computed by the harness from the final state (the real validator raises UnboundLocalError on an empty plan with an "
     "oversubscription metric: finding D-C03, owned by C03)",
-    "interpreted functions occur in action preconditions and in the values of unconditional or plainly-conditional effects "
-    "(the two places InterpretedFunctionsRemover rewrites); interpreted functions in goals or in effect CONDITIONS are not "
-    "generated (the remover leaves them in place; see the report)",
-    "all fluents have initial values; state spaces are finite (bounded integers), so breadth-first search is exact",
+    "interpreted functions occur in action preconditions and in effect VALUES (the two places InterpretedFunctionsRemover "
+    "rewrites); 4% of the cases also put one in a goal or in an effect CONDITION, which the remover leaves in place although the "
+    "planner's supported kind admits them (open finding D-C31-unremoved-ifun)",
+    "no conditional effects on the bounded integer fluents: a false conditional effect on a bounded fluent makes the real "
+    "simulator raise AssertionError in is_applicable (finding D-C02a, owned by C02), which would crash the breadth-first planner",
+    "all fluents have initial values; state spaces are finite (bounded integers, at most 1500 states), so breadth-first search is exact",
     "the underlying planner never returns INTERMEDIATE from solve() (it is the status of callback reports only)",
+    "the oracle demands what the statement demands: returned plans valid (real SequentialPlanValidator and, independently, the "
+    "simulator), SOLVED_OPTIMALLY => maximal gain over all reachable states, UNSOLVABLE_PROVEN => no valid plan, and for the "
+    "interpreted-functions planner with a complete underlying planner: solvable => a plan is returned (no exception). Other "
+    "statuses on unsolvable problems are compared model-vs-code only",
 ]
 MODELLED = [
     "modelled by hand (tied by correspondence): OversubscriptionPlanner._solve (powerset, weight sum, stable descending sort, "
     "exact-subset goal encoding, status logic) and InterpretedFunctionsPlanner._solve (refine loop, status logic, knowledge update, "
     "no-progress error)",
-    "abstract parameters of the model, sampled not verified: the underlying planner (here: exact BFS over UPSequentialSimulator), "
-    "InterpretedFunctionsRemover (assumed to yield a relaxation for every consistent knowledge set; checked end-to-end by the oracle "
-    "against exhaustive search of the ORIGINAL problem), SequentialPlanValidator (C03), Problem.clone/add_goal, "
+    "abstract parameters of the model, sampled not verified: the underlying planner (here: exact BFS over UPSequentialSimulator / "
+    "a table-driven stub), InterpretedFunctionsRemover (assumed to yield a relaxation for every reachable knowledge set; checked "
+    "end-to-end by the oracle against exhaustive search of the ORIGINAL problem; known to fail for nested applications and for "
+    "arithmetic on unknown bounded fluents: open findings), SequentialPlanValidator (C03), Problem.clone/add_goal/add_timed_goal, "
     "itertools.combinations/chain, list.sort stability, dict.update",
+    "the trace of an interpreted-functions case is recorded when the case is generated and re-recorded by impl(); the model is run on "
+    "the recorded sub-answers, so what correspondence pins for (b) is the control flow of the loop, not the sub-components",
 ]
 BUDGET_S = {"quick": 70, "thorough": 700}
 SEARCH_S = {"quick": 60, "thorough": 300}
@@ -343,6 +363,120 @@ def oversub_answer(payload):
 
 
 # ------------------------------------------------------------------------------------------------
+# (a') temporal oversubscription with a table-driven stub planner
+# ------------------------------------------------------------------------------------------------
+
+class C31Table(Engine, OneshotPlannerMixin):
+    """stub planner: `answer(problem)` -> (status name, plan or None)"""
+
+    def __init__(self, answer=None):
+        Engine.__init__(self)
+        OneshotPlannerMixin.__init__(self)
+        self._answer = answer
+
+    @property
+    def name(self):
+        return "c31table"
+
+    @staticmethod
+    def supported_kind():
+        return up.model.ProblemKind()
+
+    @staticmethod
+    def supports(problem_kind):
+        return True
+
+    @staticmethod
+    def satisfies(optimality_guarantee):
+        return True
+
+    def _solve(self, problem, heuristic=None, timeout=None, output_stream=None):
+        st, plan = self._answer(problem)
+        return PlanGenerationResult(ST[st], plan, self.name)
+
+
+def run_toversub(payload):
+    from unified_planning.model import DurativeAction, Fluent, GlobalStartTiming, ClosedTimeInterval, Problem
+    from unified_planning.model.metrics import TemporalOversubscription
+    from unified_planning.plans import TimeTriggeredPlan
+    weights = [Fraction(w) for w in section_at(payload, "weights")]
+    same = section_at(payload, "same-interval") == ["T"]
+    reach = set(section_at(payload, "reach"))
+    script = {m: st for m, st in section_at(payload, "script")}
+    ctx = Ctx()
+    env = ctx.env
+    P = Problem("tos", env)
+    fls = [Fluent(f"t{i}", env.type_manager.BoolType(), environment=env) for i in range(len(weights))]
+    for f in fls:
+        P.add_fluent(f, default_initial_value=False)
+    act = DurativeAction("d", _env=env)
+    act.set_fixed_duration(1)
+    P.add_action(act)
+    ivs = [ClosedTimeInterval(GlobalStartTiming(1 if same else i + 1), GlobalStartTiming(2 if same else i + 2))
+           for i in range(len(weights))]
+    em = env.expression_manager
+    soft = [(iv, em.FluentExp(f)) for iv, f in zip(ivs, fls)]
+    if weights:
+        P.add_quality_metric(TemporalOversubscription({g: w for g, w in zip(soft, weights)}, env))
+    asked, achieved = [], {}
+
+    def answer(problem):
+        bits = []
+        for iv, g in soft:
+            lst = problem.timed_goals.get(iv, [])
+            pos, neg = g in lst, em.Not(g) in lst
+            bits.append("1" if pos and not neg else "0" if neg and not pos else "?")
+        m = "m" + "".join(bits)
+        asked.append(m)
+        if m in script:
+            return script[m], None
+        if m in reach:
+            plan = TimeTriggeredPlan([], env)
+            achieved[id(plan)] = m
+            keep.append(plan)
+            return "SOLVED_SATISFICING", plan
+        return "UNSOLVABLE_PROVEN", None
+    keep = []
+    if "c31table" not in env.factory.engines:
+        env.factory.add_engine("c31table", __name__, "C31Table")
+    with env.factory.OneshotPlanner(name="oversubscription[c31table]", params={"answer": answer}) as pl:
+        pl.skip_checks = True
+        res = pl.solve(P)
+    got = "_" if res.plan is None else achieved.get(id(res.plan), "foreign")
+    return res, got, asked, weights, sorted(reach)
+
+
+def section_at(payload, head):
+    for s in payload[1:]:
+        if isinstance(s, list) and s and s[0] == head:
+            return s[1:]
+    return []
+
+
+def toversub_answer(payload):
+    res, got, asked, _, _ = run_toversub(payload)
+    return [res.status.name, got, ["calls"] + asked]
+
+
+def oracle_toversub(payload):
+    res, got, asked, weights, reach = run_toversub(payload)
+    gain = lambda m: sum(w for w, b in zip(weights, m[1:]) if b == "1")
+    st = res.status.name
+    if (res.plan is not None) != (st in ("SOLVED_SATISFICING", "SOLVED_OPTIMALLY")):
+        return f"status {st} inconsistent with plan presence"
+    if res.plan is not None and got not in reach:
+        return "returned plan was not produced by the underlying planner"
+    if st == "SOLVED_OPTIMALLY":
+        best = max(gain(m) for m in reach) if reach else None
+        if best is None or gain(got) != best:
+            return (f"SOLVED_OPTIMALLY with a plan achieving {got} (gain {gain(got)}) but the maximal gain over the "
+                    f"achievable subsets is {best}")
+    if st == "UNSOLVABLE_PROVEN" and reach:
+        return "UNSOLVABLE_PROVEN although some subset of the timed goals is achievable"
+    return None
+
+
+# ------------------------------------------------------------------------------------------------
 # (b) interpreted functions: running the real meta-engine with recording sub-components
 # ------------------------------------------------------------------------------------------------
 
@@ -418,6 +552,8 @@ def impl(payload):
         return oversub_answer(payload)
     if payload[0] == "ifp":
         return ifp_answer(payload)
+    if payload[0] == "toversub":
+        return toversub_answer(payload)
     return "bad-case"
 
 
@@ -496,6 +632,8 @@ def oracle(payload):
         return oracle_oversub(payload)
     if payload[0] == "ifp":
         return oracle_ifp(payload)
+    if payload[0] == "toversub":
+        return oracle_toversub(payload)
     return None
 
 
@@ -546,6 +684,9 @@ def known_cause(payload):
     if payload[0] != "ifp":
         return None
     ps = payload[1]
+    if "ifun" in sexp.dumps(upp.get(ps, "goals")) or any(
+            "ifun" in sexp.dumps(e[4]) for a in upp.get(ps, "actions") for e in a[4][1:]):
+        return "D-C31-unremoved-ifun"
     if _has_nested_ifun(ps):
         return "D-C31-nested-ifun"
     ch = changing_fluents(ps)
@@ -573,8 +714,8 @@ FUNS = {"f": ["f", I03, [I03]], "gb": ["gb", "bool", [I03]], "h": ["h", "bool", 
 
 
 class Gen:
-    def __init__(self, rng, ifuns=False, nested=False):
-        self.r, self.ifuns, self.nested = rng, ifuns, nested
+    def __init__(self, rng, ifuns=False, nested=False, stray=False):
+        self.r, self.ifuns, self.nested, self.stray = rng, ifuns, nested, stray
 
     def lterm(self, params):
         opts = [["o", "l1", "L"], ["o", "l2", "L"]] + [["p", pn, pt] for pn, pt in params] * 3
@@ -762,6 +903,13 @@ class Gen:
         r = self.r
         fluents, init, actions = self.base("ifp")
         goals = [self.cond([], r.choice([0, 0, 1]), False) for _ in range(r.choice([1, 1, 1, 2]))]
+        if self.stray:
+            # interpreted function in a goal or in the condition of an effect on a Boolean fluent (finding D-C31-unremoved-ifun)
+            if r.random() < 0.5:
+                goals.append(self.atom([], True))
+            else:
+                a = r.choice(actions)
+                a[4].append(["eff", "assign", ["fl", FL["b1"]], ["b", "T"], self.atom(a[2], True), []])
         ps = self.pack("ifp", fluents, init, actions, goals, [])
         if "ifun" not in sexp.dumps(ps):
             return None
@@ -780,13 +928,38 @@ class Gen:
 
 def with_trace(payload):
     P, ctx, res, err, steps = run_ifp(payload)
+    if err is not None and err != "UPException":
+        # the search space of a relaxed problem exceeded MAX_STATES (or the harness planner crashed): not a usable case
+        raise TooLarge()
     out = [x for x in payload if not (isinstance(x, list) and x and x[0] == "trace")]
     return out + [["trace"] + steps]
 
 
+def toversub_case(rng):
+    n = rng.choice([1, 2, 2, 3, 3, 4])
+    style = rng.random()
+    if style < 0.15:
+        ws = [rng.choice(["-1", "-2", "-1/2"]) for _ in range(n)]
+    elif style < 0.35:
+        ws = [rng.choice(["1", "2", "5/2"])] * n
+    else:
+        ws = [rng.choice(["1", "1", "2", "3", "5/2", "1/2", "0", "-1", "-2"]) for _ in range(n)]
+    masks = ["m" + "".join(b) for b in itertools.product("01", repeat=n)]
+    reach = sorted(rng.sample(masks, rng.randint(0, min(len(masks), 4))))
+    script = []
+    if rng.random() < 0.35:
+        for m in rng.sample(masks, rng.choice([1, 1, 2])):
+            script.append([m, rng.choice(["TIMEOUT"] + INCOMPLETE + ["UNSOLVABLE_INCOMPLETELY"])])
+    return ["toversub", ["weights"] + ws, ["same-interval", "T" if rng.random() < 0.4 else "F"], ["reach"] + reach,
+            ["script"] + script]
+
+
 def gen_case(rng, want):
+    if want == "toversub":
+        return toversub_case(rng)
     for _ in range(200):
-        g = Gen(rng, ifuns=(want == "ifp"), nested=(want == "ifp" and rng.random() < 0.08))
+        g = Gen(rng, ifuns=(want == "ifp"), nested=(want == "ifp" and rng.random() < 0.08),
+                stray=(want == "ifp" and rng.random() < 0.04))
         try:
             c = g.oversub_case() if want == "oversub" else g.ifp_case()
         except TooLarge:
@@ -799,7 +972,9 @@ def gen_case(rng, want):
 
 
 def cases(rng, tier):
-    n_os, n_if = (140, 90) if tier == "quick" else (2500, 1500)
+    n_os, n_if = (100, 70) if tier == "quick" else (2000, 900)
+    for i in range(n_os // 3):
+        yield gen_case(rng, "toversub")       # cheap (stub planner): all up front
     for i in range(n_os + n_if):
         # interleave the two families so that a budget cut keeps both
         want = "ifp" if (i * n_if) // (n_os + n_if) != ((i + 1) * n_if) // (n_os + n_if) else "oversub"
@@ -815,6 +990,10 @@ def nontrivial(payload, ans):
         calls = ans[2][1:]
         scripted = {m for m, _ in section(payload, "script")}
         return (len(soft_goals_sexp(payload[1])) >= 2 and len(calls) >= 2) or bool(scripted & set(calls))
+    if payload[0] == "toversub":
+        calls = ans[2][1:]
+        scripted = {m for m, _ in section_at(payload, "script")}
+        return (len(section_at(payload, "weights")) >= 2 and len(calls) >= 2) or bool(scripted & set(calls))
     steps = ans[1][1:]
     return any(s[2] == "F" for s in steps) or any(s[1] in INCOMPLETE or s[1] == "TIMEOUT" for s in steps)
 
@@ -822,6 +1001,8 @@ def nontrivial(payload, ans):
 def stats(payload, ans):
     if not isinstance(ans, list):
         return [str(ans)]
+    if payload[0] == "toversub":
+        return ["tos:" + ans[0], f"tos:goals={len(section_at(payload, 'weights'))}", f"tos:calls={min(len(ans[2]) - 1, 9)}"]
     if payload[0] == "oversub":
         n = len(soft_goals_sexp(payload[1]))
         t = ["os:" + ans[0], f"os:goals={n}", f"os:calls={min(len(ans[2]) - 1, 9)}"]
@@ -842,6 +1023,18 @@ def stats(payload, ans):
 
 
 def shrink(payload):
+    if payload[0] == "toversub":
+        ws, same = section_at(payload, "weights"), section_at(payload, "same-interval")
+        reach, script = section_at(payload, "reach"), section_at(payload, "script")
+        mk = lambda w, r, sc: ["toversub", ["weights"] + w, ["same-interval"] + same, ["reach"] + r, ["script"] + sc]
+        for i in range(len(ws)):
+            cut = lambda m: m[:1 + i] + m[2 + i:]
+            yield mk(ws[:i] + ws[i + 1:], sorted({cut(m) for m in reach}), [[cut(m), st] for m, st in script])
+        for i in range(len(reach)):
+            yield mk(ws, reach[:i] + reach[i + 1:], script)
+        for i in range(len(script)):
+            yield mk(ws, reach, script[:i] + script[i + 1:])
+        return
     ps = payload[1]
 
     def rebuild(nps):
@@ -897,17 +1090,23 @@ def shrink(payload):
 
 MANIFEST = {
     "level_text": ("Lean 4 theorems (Props/C31.lean) about executable models of OversubscriptionPlanner._solve and "
-                   "InterpretedFunctionsPlanner._solve with the underlying planner, the interpreted-functions remover and the plan "
-                   "validator as ABSTRACT parameters: for every goal list, weights (any sign, ties), and every underlying planner that is "
-                   "sound and truthful, a SOLVED_OPTIMALLY result carries a plan valid for the hard goals whose gain is maximal over all "
-                   "valid plans; no SOLVED_OPTIMALLY / UNSOLVABLE_PROVEN after an incomplete sub-answer; the interpreted-functions planner "
-                   "only returns plans accepted by the validator on the original problem, terminates (knowledge strictly grows) and, if the "
-                   "remover yields relaxations and the underlying planner is complete, finds a plan whenever one exists (conditional). "
+                   "InterpretedFunctionsPlanner._solve in which the underlying planner, the interpreted-functions remover and the plan "
+                   "validator are ABSTRACT parameters. Proved for every goal list, all weights (any sign, ties) and every underlying "
+                   "planner: a returned plan was returned by the underlying planner for one exact-subset query, so with a sound planner it "
+                   "is valid for the hard goals; with a sound and truthful planner a SOLVED_OPTIMALLY plan has maximal gain among ALL valid "
+                   "plans; SOLVED_OPTIMALLY / UNSOLVABLE_PROVEN are never reported after an incomplete sub-answer, every other status repeats a "
+                   "sub-answer; a complete planner makes the meta-engine complete. Interpreted-functions planner: a returned plan was "
+                   "accepted by the validator on the ORIGINAL problem, a plan-less result repeats the underlying planner's status for a "
+                   "reachable knowledge set, the refine loop terminates (knowledge grows strictly within a finite universe); completeness "
+                   "is proved only UNDER two named assumptions on the unmodelled remover/validator (relaxation, progress). "
                    "The models are tied to the code by a differential correspondence check through the real factory with an exact "
-                   "breadth-first planner (and scripted incomplete variants), plus the property's own oracle (exhaustive search)."),
-    "level_note": ("Partial: the remover's relaxation property and the validator's correctness are hypotheses of the completeness / "
-                   "validity theorems (sampled end-to-end by the oracle, not proved). Trusted: Lean kernel; axioms propext, "
-                   "Classical.choice, Quot.sound; the correspondence harness incl. its breadth-first planner."),
+                   "breadth-first planner over the real simulator (and scripted incomplete variants; a table-driven stub for timed goals), "
+                   "plus the property's own oracle (exhaustive search of the original problem, real validator)."),
+    "level_note": ("Partial: `C31_if_complete_partial` assumes RemoverRelaxes and ValidationProgress, which are only sampled (oracle) and are "
+                   "known to fail on three input shapes (open findings D-C31-nested-ifun, D-C31-stale-bounded-value, D-C31-unremoved-ifun); "
+                   "validity of returned plans reduces to the validator's correctness (C03). Requires the fixes in "
+                   "notes/patches/C31-1..3. Trusted: Lean kernel; axioms propext, Classical.choice, Quot.sound; the correspondence "
+                   "harness incl. its breadth-first planner and the recorded traces."),
     "technique": "Lean 4 proof over abstract-planner models + model/code correspondence through the real factory",
     "design_ref": "DESIGN.md §5 C31",
 }
